@@ -402,6 +402,35 @@ def hKeypairXonlyTweakAdd : Handler
     some (s!"{r.ret} {showKp r.out} i{r.illegal}")
   | _ => none
 
+def hPubkeySort : Handler := fun args => do
+  let ps ← args.mapM pt?
+  some (join ("1" :: (Keys.pubkeySort ps).map showPt))
+
+def chainOp? (s : String) : Option Keys.ChainOp :=
+  let rest := (s.drop 1).toString
+  match s.front with
+  | 'a' => (hexN? 32 rest).map .add
+  | 'm' => (hexN? 32 rest).map .mul
+  | 'x' => (hexN? 32 rest).map .xadd
+  | 'n' => if rest = "" then some .neg else none
+  | _ => none
+
+/-- `key_chain sk op*`: apply the ops on the secret side and on the public side.
+    Output: `sec <sk'|fail>  pub <pk'|fail>  derived <pubkey_create sk'>` -/
+def hKeyChain : Handler
+  | sk :: ops => do
+    let k ← hexN? 32 sk
+    let os ← ops.mapM chainOp?
+    let (r0, pk0) := Keys.pubkeyCreate k
+    if r0 = 0 then some "badkey" else
+    let s := Keys.chainSecAll k os
+    let p := Keys.chainPubAll pk0 os
+    let derived := match s with
+      | some sk' => showPt (Keys.pubkeyCreate sk').2
+      | none => "fail"
+    some (join ["sec", (s.map hx).getD "fail", "pub", (p.map showPt).getD "fail", "derived", derived])
+  | _ => none
+
 /-! ### Schnorr -/
 
 def hSchnorrSign : Handler
@@ -453,6 +482,7 @@ def basicHandlers : List (String × Handler) := [
   ("xonly_tweak_add_check", hXonlyTweakAddCheck),
   ("keypair_create", hKeypairCreate), ("keypair_xonly_pub", hKeypairXonlyPub),
   ("keypair_xonly_tweak_add", hKeypairXonlyTweakAdd),
+  ("pubkey_sort", hPubkeySort), ("key_chain", hKeyChain),
   ("schnorr_sign", hSchnorrSign), ("schnorr_verify", hSchnorrVerify), ("nonce_bip340", hNonceBip340)
 ]
 
